@@ -462,16 +462,24 @@ def mon_c06(ex, info, col):
                                 # the (flat, single-task) component is nowhere although an assigned workplace has room for it and a FREE machine this
                                 # worker can operate: it could be carried in and the pair could start (room and free resources only shrink during a step,
                                 # so what is true after the allocation was true at the task's turn)
-                                if _shape(info, cn) != "flat" or ws or fs:
+                                # (also claimed for the top of a nested product: the whole assembly must fit; parts below an assembly are left to C13)
+                                if info.comp_parents.get(cn) or ws or fs:
                                     continue
-                                size = info.comps[cn].get("space")
-                                size = 1.0 if size is None else size
+                                _sz = lambda c: 1.0 if info.comps[c].get("space") is None else info.comps[c]["space"]  # noqa: E731
+                                below, todo = [], list(info.comp_children.get(cn, []))
+                                while todo:
+                                    c_ = todo.pop()
+                                    if c_ not in below:
+                                        below.append(c_)
+                                        todo += info.comp_children.get(c_, [])
+                                size = _sz(cn) + sum(_sz(c_) for c_ in below)
                                 for wp2 in sorted(info.wp):
                                     if tn not in info.wp_targets[wp2]:
                                         continue
                                     cap = info.wp[wp2].get("cap")
                                     cap = 1.0 if cap is None else (float("inf") if cap == "inf" else cap)
-                                    used = sum((1.0 if info.comps[c].get("space") is None else info.comps[c]["space"]) for c in _top_most(info, sa["workplaces"].get(wp2, [])))
+                                    # room is judged by where the components are (their own report), every one of them counted
+                                    used = sum(_sz(c) for c in info.comps if sa["components"][c][1] == wp2)
                                     if not cap - used > size - 1e-8:
                                         continue
                                     for f in info.wp_facilities.get(wp2, []):
